@@ -57,10 +57,35 @@ struct Spec {
     /// Some(end) = the stream's entry number `expect.len()` is malformed and
     /// is complete once byte `end - 1` has been written
     bad_end: Option<usize>,
+    /// the stream is in canonical form, so printing the collection must reproduce it
+    canonical: bool,
+}
+
+/// A spec whose expectation is derived from the bytes with the reference parser: entries are
+/// the "\n\n"-terminated pieces, the first piece the reference parser rejects is the bad entry.
+fn derived_spec(name: &str, bytes: Vec<u8>, canonical: bool) -> Spec {
+    let text = String::from_utf8_lossy(&bytes).into_owned();
+    let mut expect = vec![];
+    let mut bad_end = None;
+    let mut pos = 0;
+    for chunk in text.split_inclusive("\n\n") {
+        pos += chunk.len();
+        if !chunk.ends_with("\n\n") {
+            break;
+        }
+        match ms::parse(&chunk[..chunk.len() - 1]) {
+            Ok(e) => expect.push(e),
+            Err(_) => {
+                bad_end = Some(pos);
+                break;
+            }
+        }
+    }
+    Spec { name: name.to_string(), bytes, expect, bad_end, canonical }
 }
 
 fn good_spec(name: &str, entries: Vec<Entry>) -> Spec {
-    Spec { name: name.into(), bytes: stream_of(&entries), expect: entries, bad_end: None }
+    Spec { name: name.into(), bytes: stream_of(&entries), expect: entries, bad_end: None, canonical: true }
 }
 
 fn bad_spec(k: usize, fault: usize) -> Spec {
@@ -88,6 +113,7 @@ fn bad_spec(k: usize, fault: usize) -> Spec {
         bytes,
         expect: es[..k].to_vec(),
         bad_end: Some(bad_end),
+        canonical: true,
     }
 }
 
@@ -96,7 +122,7 @@ fn entries_of(s: &SummaryStream) -> Vec<Entry> {
 }
 
 fn case(spec: &Spec, cuts: &[usize]) -> Value {
-    json!({"stream": bytes_json(&spec.bytes), "cuts": cuts, "expect_entries": spec.expect.len(), "bad_end": spec.bad_end, "name": spec.name})
+    json!({"stream": bytes_json(&spec.bytes), "cuts": cuts, "expect_entries": spec.expect.len(), "bad_end": spec.bad_end, "name": spec.name, "canonical": spec.canonical})
 }
 
 enum Step {
@@ -167,7 +193,7 @@ fn final_check(spec: &Spec, s: &SummaryStream) -> Option<(String, Value, Value)>
         return Some(("after the last byte the collected entries must be the stream's entries".into(), json!(format!("{} entries", spec.expect.len())), json!(format!("{} entries", got.len()))));
     }
     let text = s.to_string();
-    if text.as_bytes() != &spec.bytes[..] {
+    if spec.canonical && text.as_bytes() != &spec.bytes[..] {
         return Some(("printing the collection must reproduce the stream".into(), bytes_json(&spec.bytes), bytes_json(text.as_bytes())));
     }
     None
@@ -349,24 +375,7 @@ fn replay(doc: &Value) -> Option<Violation> {
     let bytes = unhex(c["stream"]["hex"].as_str().unwrap_or(""));
     let cuts: Vec<usize> = c["cuts"].as_array().map(|a| a.iter().filter_map(|x| x.as_u64().map(|v| v as usize)).collect()).unwrap_or_default();
     // rebuild the expectation from the stream with the reference parser
-    let text = String::from_utf8_lossy(&bytes).into_owned();
-    let mut expect = vec![];
-    let mut bad_end = None;
-    let mut pos = 0;
-    for chunk in text.split_inclusive("\n\n") {
-        pos += chunk.len();
-        if !chunk.ends_with("\n\n") {
-            break;
-        }
-        match ms::parse(&chunk[..chunk.len() - 1]) {
-            Ok(e) => expect.push(e),
-            Err(_) => {
-                bad_end = Some(pos);
-                break;
-            }
-        }
-    }
-    let spec = Spec { name: c["name"].as_str().unwrap_or("replay").to_string(), bytes, expect, bad_end };
+    let spec = derived_spec(c["name"].as_str().unwrap_or("replay"), bytes, c["canonical"].as_bool().unwrap_or(true));
     run_partition(&spec, &cuts)
 }
 
@@ -528,6 +537,52 @@ fn main() {
                 match run_partition(spec, &[*a, *b]) {
                     Some(v) => t.violation(v),
                     None => t.outcome("scale/cut-pair-ok"),
+                }
+            }
+        });
+    }
+    // junk sweep: one extra character (every ASCII character, 64 special ones, NUL) at the
+    // start of the stream, of a later line, of the second entry, at the end of a line, and alone
+    // on a line inside the separator; the expectation is derived from the text with the reference
+    // parser; every single cut and the uncut write
+    {
+        let base = stream_of(&[entry("j", 1, false), entry("k", 0, false)]);
+        let text = String::from_utf8(base).unwrap();
+        let second = text.find("\n\n").unwrap() + 2;
+        let line2 = text.find('\n').unwrap() + 1;
+        let eol = text[line2..].find('\n').unwrap() + line2;
+        let mut chars = mc_core::chars::all();
+        chars.push('\0'); // CR is outside the statement's domain (no line breaks inside values)
+        let mut specs = vec![];
+        for c in &chars {
+            for (what, at, alone) in [("stream start", 0usize, false), ("line start", line2, false), ("second entry start", second, false), ("line end", eol, false), ("alone in the separator", second - 1, true)] {
+                let mut tx = text.clone();
+                if alone {
+                    tx.insert_str(at, &format!("{}\n", c));
+                } else {
+                    tx.insert(at, *c);
+                }
+                specs.push(derived_spec(&format!("junk U+{:04X} at {}", *c as u32, what), tx.into_bytes(), false));
+            }
+        }
+        // the byte order mark also byte by byte, and doubled
+        for pre in [&b"\xef\xbb\xbf\xef\xbb\xbf"[..], b"\xef\xbb\xbf \n", b"\xef\xbb\xbf\n\n", b"\n", b"\n\n", b" \n\n"] {
+            let mut b = pre.to_vec();
+            b.extend_from_slice(text.as_bytes());
+            specs.push(derived_spec(&format!("prefix {:?}", String::from_utf8_lossy(pre)), b, false));
+        }
+        run.bound(format!("junk sweep: {} streams ({} characters x 5 positions, 6 prefixes), each uncut and with every single cut", specs.len(), chars.len()));
+        par_items(&run, "C09 junk sweep", &specs, |_, spec, t| {
+            let n = spec.bytes.len();
+            for q in 0..n {
+                let cuts: Vec<usize> = if q == 0 { vec![] } else { vec![q] };
+                t.evals += 1;
+                t.validated += 1;
+                t.states += 1;
+                t.transitions += cuts.len() as u64 + 1;
+                match run_partition(spec, &cuts) {
+                    Some(v) => t.violation(v),
+                    None => t.outcome(if spec.bad_end.is_some() { "junk/rejected" } else { "junk/accepted" }),
                 }
             }
         });
